@@ -68,8 +68,25 @@ func ruleCopyDecision(ctx *Ctx, rule string) {
 	for _, a := range ssaq.Anchors(f) {
 		// the two copying allocations are told from the landing-pad ones by
 		// what they allocate (a struct's or a list's size, not a constant)
-		if a.Callee != "capnp.alloc" || len(a.Args) < 2 || a.Instr.Parent() != f {
+		if a.Callee != "capnp.alloc" || len(a.Args) < 2 {
 			continue
+		}
+		// an allocation moved into a helper that did not exist on the reference
+		// tree: the decision is the one that leads to the helper's call
+		site := a.Instr
+		if site.Parent() != f {
+			site = nil
+			g := a.Instr.Parent()
+			for _, fb := range f.Blocks {
+				for _, fin := range fb.Instrs {
+					if c, ok := fin.(*ssa.Call); ok && c.Call.StaticCallee() == g && ssaq.IsNew(g) {
+						site = c
+					}
+				}
+			}
+			if site == nil {
+				continue
+			}
 		}
 		ord := 0
 		switch {
@@ -85,7 +102,7 @@ func ruleCopyDecision(ctx *Ctx, rule string) {
 		kind := map[int]string{1: "struct", 2: "list"}[a.Ordinal]
 		key := fmt.Sprintf("writePtr | %s is copied iff forceCopy, other message%s", kind, map[int]string{1: " or list member", 2: ""}[a.Ordinal])
 		// walk back from the allocation's block to the decision: the nearest ancestor block with several predecessors ending in Ifs
-		b := a.Instr.Block()
+		b := site.Block()
 		for len(b.Preds) == 1 {
 			if _, isIf := b.Preds[0].Instrs[len(b.Preds[0].Instrs)-1].(*ssa.If); isIf && len(b.Preds[0].Succs) == 2 && b.Preds[0].Succs[0] == b && len(condsInto(f, b)) > 0 && len(b.Preds) > 1 {
 				break
@@ -194,6 +211,14 @@ func ruleCopyZeroFill(ctx *Ctx, rule string) {
 						ok = true
 					}
 				}
+			}
+		}
+		// the same fill written as an index loop over the whole data section,
+		// from the number of bytes copied to its length
+		for _, zl := range findZeroLoops(fr.Fn) {
+			if fr.Render(zl.x) == "slice(p0.seg, p0.off, p0.size.DataSize)" && zl.lo != nil &&
+				strings.HasPrefix(fr.Render(zl.lo), "copy(slice(p0.seg, p0.off, p0.size.DataSize), ") && isLenOfValue(zl.hi, zl.x) {
+				ok = true
 			}
 		}
 	}
